@@ -371,6 +371,23 @@ Theorem C01_net_processed_once :
 Proof. exact processed_from_sent. Qed.
 Print Assumptions C01_net_processed_once.
 
+(** Prepared for C07's repaired history (trimming raises deletedBelow, no watermark ever set): without a
+    watermark in the application-data space the conclusion is unconditional.  On the CURRENT (unrepaired)
+    received_packet_history.go the premise fails on a reachable schedule - more than MaxNumAckRanges gaps, then
+    a replay of a forgotten packet: the packet is processed again and its DATAGRAM frame delivered twice;
+    monitor simdgram/dup-replay-beyond-ack-ranges shows it on the implementation. *)
+Theorem C01_net_processed_once_no_watermark :
+  forall (aead_open : Z -> Z -> list Z -> list Z -> option (list Z)) (hp_mask : list Z -> list Z)
+         (aead_seal : Z -> Z -> list Z -> list Z -> list Z) (sealed : Z -> Z -> list Z -> list Z -> Prop),
+  (forall pn kp ad c p, aead_open pn kp ad c = Some p -> sealed pn kp ad p /\ c = aead_seal pn kp ad p) ->
+  forall sent : list (Z * Z * list Z),
+  (forall pn kp hdr p, sealed pn kp hdr p -> In (pn, kp, p) sent) ->
+  forall nevs : list nev,
+  let ns := nrun aead_open hp_mask nst0 nevs in
+  n_W ns 2%nat = None -> NoDup (pns ns) /\ NoDup (n_procs ns).
+Proof. exact processed_once_no_watermark. Qed.
+Print Assumptions C01_net_processed_once_no_watermark.
+
 (** C01_end_to_end_prefix / C01_complete_if_covered in their final form:
     SendStream.Model o packets o arbitrary network o (C05 unpack . C07 duplicate filter) o RecvStream.Model.
     Remaining hypotheses: [ideal], [honest] (above); [packed]: the plaintexts the sender sealed contain, for this
